@@ -3,8 +3,10 @@ package checks
 import (
 	"encoding/json"
 	"fmt"
+	"math"
 	"math/big"
 	"reflect"
+	"strconv"
 	"strings"
 
 	"github.com/twpayne/go-geom"
@@ -32,9 +34,9 @@ type c07Case struct {
 func init() {
 	engine.Register(&engine.Check{
 		ID: "C07", Level: "exploration",
-		Rule: "round trip: universe U in XY, XYZ, XYM, XYZM, Layout(5), Layout(7) + collections (mixed layouts, empty members, nesting <=3) + a float lattice in points: Marshal output read by an independent RFC 7946 reader (same type, nesting, numbers) and by Unmarshal / Encode+Decode (equal to the model with the format carve-outs COMPUTED from the model: layout from the first position, empty => XY, arity mismatch => error); Features: id {absent,'a','0','1e3'} x bbox {absent,XY,XYZ} x properties {nil,{},nested} x geometry {nil, each kind}; FeatureCollections of 0..2 features x bbox. Totality: grammar-directed enumeration of documents (type x coordinates menu x geometries menu; Feature id x bbox x geometry x properties menus; FeatureCollection menus) plus every prefix and every single-byte deletion of valid documents, decoded as geometry, Feature and FeatureCollection: no panic; error or well-formed result. distinct_nontrivial = distinct documents / geometries with at least one position or one member",
-		Run:    c07Run,
-		Replay: func(c *engine.Ctx, kind string, raw json.RawMessage) { c07Exec(c, decodeCase[c07Case](raw)) },
+		Rule:        "round trip: universe U in XY, XYZ, XYM, XYZM, Layout(5), Layout(7) + collections (mixed layouts, empty members, nesting <=3) + a float lattice in points: Marshal output read by an independent RFC 7946 reader (same type, nesting, numbers) and by Unmarshal / Encode+Decode (equal to the model with the format carve-outs COMPUTED from the model: layout from the first position, empty => XY, arity mismatch => error); Features: id {absent,'a','0','1e3'} x bbox {absent,XY,XYZ} x properties {nil,{},nested} x geometry {nil, each kind}; FeatureCollections of 0..2 features x bbox. Totality: grammar-directed enumeration of documents (type x coordinates menu x geometries menu; Feature id x bbox x geometry x properties menus; FeatureCollection menus) plus every prefix and every single-byte deletion of valid documents, decoded as geometry, Feature and FeatureCollection: no panic; error or well-formed result. distinct_nontrivial = distinct documents / geometries with at least one position or one member",
+		Run:         c07Run,
+		Replay:      func(c *engine.Ctx, kind string, raw json.RawMessage) { c07Exec(c, decodeCase[c07Case](raw)) },
 		Assumptions: []string{"finite ordinates; geojson.DefaultLayout at its default XY; encoding/json and ref.ParseGeoJSON trusted"},
 	})
 }
@@ -239,7 +241,9 @@ func c07Exec(c *engine.Ctx, cs c07Case) {
 		}
 		c.Sample("roundtrip/"+g.Kind.String(), 1, map[string]any{"json": string(data)})
 	case "feature", "fc":
-		fail := func(what, desc string) { c.Violate(cs.Mode+"/"+what, fmt.Sprintf("%s; case %s", desc, mustJSON(cs)), "c07", cs) }
+		fail := func(what, desc string) {
+			c.Violate(cs.Mode+"/"+what, fmt.Sprintf("%s; case %s", desc, mustJSON(cs)), "c07", cs)
+		}
 		mk := func() *geojson.Feature {
 			f := &geojson.Feature{ID: cs.ID, BBox: c07BBox(cs.BBox), Properties: c07Props(cs.Props)}
 			if cs.G != nil {
@@ -318,7 +322,9 @@ func c07Exec(c *engine.Ctx, cs c07Case) {
 		c.DistinctStr(string(data))
 		c.Sample(cs.Mode, 2, string(data))
 	case "numid":
-		fail := func(what, desc string) { c.Violate("numeric-id/"+what, fmt.Sprintf("%s; id literal %s", desc, cs.Doc), "c07", cs) }
+		fail := func(what, desc string) {
+			c.Violate("numeric-id/"+what, fmt.Sprintf("%s; id literal %s", desc, cs.Doc), "c07", cs)
+		}
 		doc := `{"type":"Feature","id":` + cs.Doc + `,"geometry":{"type":"Point","coordinates":[1,2]},"properties":null}`
 		var f, f2 geojson.Feature
 		var err error
@@ -339,9 +345,13 @@ func c07Exec(c *engine.Ctx, cs c07Case) {
 			fail("error", err.Error())
 			return
 		}
-		want, ok := new(big.Rat).SetString(cs.Doc)
-		got, ok2 := new(big.Rat).SetString(f.ID)
-		if !ok || !ok2 || want.Cmp(got) != 0 {
+		// encoding/json reads a number into a float64: the id is the exact value of that float
+		wantF, perr := strconv.ParseFloat(cs.Doc, 64)
+		want, ok := new(big.Rat).SetFloat64(wantF), perr == nil
+		gotF, gerr := strconv.ParseFloat(f.ID, 64)
+		// the id text must denote the same float64 (it is the shortest such decimal, not the
+		// exact binary expansion)
+		if !ok || gerr != nil || gotF != wantF {
 			fail("value", fmt.Sprintf("id read as %q, which is not the number %s", f.ID, cs.Doc))
 			return
 		}
@@ -355,7 +365,9 @@ func c07Exec(c *engine.Ctx, cs c07Case) {
 		}
 		c.Count("numeric_ids", 1)
 	case "doc":
-		fail := func(what, desc string) { c.Violate("doc/"+cs.Kind+"/"+what, fmt.Sprintf("%s; document %q", desc, cs.Doc), "c07", cs) }
+		fail := func(what, desc string) {
+			c.Violate("doc/"+cs.Kind+"/"+what, fmt.Sprintf("%s; document %q", desc, cs.Doc), "c07", cs)
+		}
 		wf := func(t geom.T) string {
 			if t == nil {
 				return ""
@@ -473,6 +485,40 @@ func c07Run(c *engine.Ctx) {
 	for _, num := range []string{"0", "1", "10", "-3", "999999", "1000000", "123456789012", "9007199254740991", "1.5", "0.25", "0.00001", "1e3", "1e21", "12345678.125"} {
 		c07Exec(c, c07Case{Mode: "numid", Doc: num})
 	}
+	// a lattice of numeric ids: +-2^k and neighbours for k = 0..70 (through the int64 and uint64
+	// limits), powers of ten up to 1e22 and their neighbours, integral values between 2^63 and
+	// 1e19, small fractions
+	idSeen := map[string]bool{}
+	addID := func(v float64) {
+		if math.IsInf(v, 0) || math.IsNaN(v) || (v == 0 && math.Signbit(v)) {
+			return
+		}
+		for _, lit := range []string{strconv.FormatFloat(v, 'f', -1, 64), strconv.FormatFloat(v, 'e', -1, 64)} {
+			if !idSeen[lit] {
+				idSeen[lit] = true
+				c07Exec(c, c07Case{Mode: "numid", Doc: lit})
+			}
+		}
+	}
+	for k := 0; k <= 70; k++ {
+		p := math.Ldexp(1, k)
+		for _, v := range []float64{p, math.Nextafter(p, 0), math.Nextafter(p, math.Inf(1)), p + 1, p - 1, 3 * p / 2} {
+			addID(v)
+			addID(-v)
+		}
+	}
+	for k := 0; k <= 22; k++ {
+		p := math.Pow(10, float64(k))
+		for _, v := range []float64{p, math.Nextafter(p, 0), math.Nextafter(p, math.Inf(1)), p - 1, 9.3 * p, 9.5 * p, p / 4, p / 3} {
+			addID(v)
+			addID(-v)
+		}
+	}
+	for _, v := range []float64{9223372036854775807, 9223372036854775808, 9223372036854777856, 9300000000000000000, 9999999999999997952, 18446744073709551615, 0.1, 1e-7, 123.456, 5e-324} {
+		addID(v)
+		addID(-v)
+	}
+	c.Note("numeric_id_literals", len(idSeen))
 	// (c) totality: grammar-directed documents
 	types := []string{`"Point"`, `"LineString"`, `"Polygon"`, `"MultiPoint"`, `"MultiLineString"`, `"MultiPolygon"`, `"GeometryCollection"`, `"Feature"`, `"FeatureCollection"`, `"Unknown"`, `5`, `null`, ``}
 	coords := []string{``, `null`, `true`, `1`, `"x"`, `{}`, `[]`, `[1]`, `[1,2]`, `[1,2,3]`, `[1,2,3,4]`, `[1,2,3,4,5]`, `["a",2]`, `[null,2]`, `[1e999,2]`,
